@@ -458,6 +458,15 @@ def pipeline(path, seed, runs, full):
                         "args": {"method": "lexstat", "threshold": 0.6},
                         "first": [e2e["guessed_threshold"], e2e["guessid"]],
                         "second": [float(lex._meta['guessed_threshold']).hex(), column(lex, 'guessid')]})
+    # K9: the distance matrix the tree calculation starts from (basic/ops.py wl2dst, mode swadesh)
+    from lingpy.basic.ops import wl2dst
+    out["kernels"]["dst"] = []
+    for ref in ("scaid", "lexstatid", "turchinid"):
+        out["kernels"]["dst"].append({
+            "ref": ref, "rows": list(lex.rows),
+            "dicts": [[[c, [int(v) for v in vals]] for c, vals in lex.get_dict(col=t, entry=ref).items()]
+                      for t in lex.cols],
+            "matrix": [[float(v).hex() for v in row] for row in wl2dst(lex, ref=ref)]})
     for ref in ("scaid", "lexstatid"):
         for tc in ("upgma", "neighbor"):
             e2e["tree_%s_%s" % (ref, tc)] = newick(lex, ref, tc)
@@ -830,7 +839,34 @@ class ScorerStream(_Stream):
         return j
 
 
-STREAMS = [WlStream(), LexStream(), RenumStream(), ScorerStream()]
+class DstStream(_Stream):
+    name, case_type, code_fn = "dst", "dst_case", "dst_case_code"
+    IMPORTS = IMPORTS[:-1] + " Runtime.DeterminismDst."
+    BITS = {0: "correspondence: wl2dst(wl, ref) is not the model's matrix (within 2^-40), for the concepts as enumerated "
+               "or in another order",
+            1: "the distance matrix of the tree calculation is not square / symmetric / zero on the diagonal",
+            5: "tie broken: the reordered concepts are not the same set"}
+
+    def render(self, case, o):
+        from fractions import Fraction
+        c = Ctx()
+        rows = list(o["rows"])
+        k = max(1, len(rows) // 3)
+        other = list(reversed(rows[k:] + rows[:k]))            # rotated and reversed
+        q = lambda h: "(%d # %d)%%Q" % Fraction(float.fromhex(h)).as_integer_ratio()
+        body = "Build_dst_case %s %s %s %s" % (
+            c.strs(rows), c.strs(other),
+            lst([lst(["(%s, [%s])" % (c.s(cc), "; ".join(str(int(v)) for v in vals)) for cc, vals in d])
+                 for d in o["dicts"]]),
+            lst([lst([q(v) for v in row]) for row in o["matrix"]]))
+        return c.wrap(body)
+
+    def nontrivial(self, case, o):
+        vals = {v for row in o["matrix"] for v in row}
+        return len(vals) > 2                                    # more than {0, one distance}
+
+
+STREAMS = [WlStream(), LexStream(), RenumStream(), ScorerStream(), DstStream()]
 
 
 if __name__ == "__main__":
